@@ -1,6 +1,6 @@
 //! Verification shim: a 128-bit opaque identifier; `new_v4` is an arbitrary fresh value
 //! (a global counter in the high range so that it never collides with harness-chosen ids).
-#[derive(Clone, Copy, PartialEq, Eq, Hash, PartialOrd, Ord, Debug)]
+#[derive(Clone, Copy, PartialEq, Eq, Hash, PartialOrd, Ord)]
 pub struct Uuid { hi: u64, lo: u64 }
 static mut NEXT: u128 = 1000;
 /// (native replay only) restart the fresh-id sequence
@@ -11,11 +11,33 @@ impl Uuid {
     pub const fn nil() -> Self { Uuid { hi: 0, lo: 0 } }
     pub const fn is_nil(&self) -> bool { self.hi == 0 && self.lo == 0 }
     pub const fn max() -> Self { Uuid { hi: u64::MAX, lo: u64::MAX } }
-    pub const fn as_u64_pair(&self) -> (u64, u64) { (self.hi, self.lo) }
+    pub fn as_u64_pair(&self) -> (u64, u64) { verif::touch(); (self.hi, self.lo) }
     pub const fn from_u64_pair(hi: u64, lo: u64) -> Self { Uuid { hi, lo } }
-    pub const fn as_u128(&self) -> u128 { ((self.hi as u128) << 64) | (self.lo as u128) }
+    pub fn as_u128(&self) -> u128 { verif::touch(); ((self.hi as u128) << 64) | (self.lo as u128) }
+    pub fn hyphenated(self) -> Self { self }
+    pub fn simple(self) -> Self { self }
+    pub fn urn(self) -> Self { self }
+    pub fn braced(self) -> Self { self }
 }
-impl serde::Serialize for Uuid { fn serialize<S: serde::Serializer>(&self, s: S) -> Result<S::Ok, S::Error> { s.serialize_u128(self.as_u128()) } }
+impl serde::Serialize for Uuid { fn serialize<S: serde::Serializer>(&self, s: S) -> Result<S::Ok, S::Error> { verif::touch(); s.serialize_u128(((self.hi as u128) << 64) | (self.lo as u128)) } }
 impl<'de> serde::Deserialize<'de> for Uuid { fn deserialize<D: serde::Deserializer<'de>>(d: D) -> Result<Self, D::Error> { Ok(Uuid::from_u128(<u128 as serde::Deserialize>::deserialize(d)?)) } }
 impl Default for Uuid { fn default() -> Self { Uuid::nil() } }
-impl std::fmt::Display for Uuid { fn fmt(&self, f: &mut std::fmt::Formatter<'_>) -> std::fmt::Result { f.write_str("uuid") } }
+/// Every way of rendering an id: the text is a marker character (U+0001) that no other shim or
+/// first-party string contains, and the access is recorded while a harness has `FORMATTING` set
+/// (C12, "the session id never appears in the Debug output of the session").
+pub mod verif {
+    pub static mut FORMATTING: bool = false;
+    pub static mut LEAKED: bool = false;
+    pub const MARKER: &str = "\u{1}";
+    pub fn touch() {
+        unsafe {
+            if FORMATTING {
+                LEAKED = true;
+            }
+        }
+    }
+}
+macro_rules! render { ($($t:ident)*) => { $(
+    impl std::fmt::$t for Uuid { fn fmt(&self, f: &mut std::fmt::Formatter<'_>) -> std::fmt::Result { verif::touch(); f.write_str(verif::MARKER) } }
+)* } }
+render!(Display Debug LowerHex UpperHex);
